@@ -12,14 +12,16 @@ for id in $IDS; do
   git -C /repo worktree add -q --detach $WT HEAD || continue
   git -C $WT apply /verif/seeded/$id/patch.diff || { echo "$id: patch failed"; continue; }
   out=$ROOT/.run/mutants/$id.txt
-  ( cd $ROOT && VERIF_REPO=$WT VERIF_SEED=${VERIF_SEED:-1} bin/check $prop --tier ${TIER:-quick} > $out 2>&1; echo "exit=$?" >> $out )
-  python3 - $ROOT >> $out <<'PY'
-import json,os,sys,glob,collections
-fs=sorted(glob.glob(sys.argv[1]+'/.cache/*.json'),key=os.path.getmtime)
-if fs:
-    r=json.load(open(fs[-1]))
+  rm -f $ROOT/.run/mutants/$id.result.json
+  ( cd $ROOT && VERIF_RESULT_COPY=$ROOT/.run/mutants/$id.result.json VERIF_REPO=$WT VERIF_SEED=${VERIF_SEED:-1} bin/check $prop --tier ${TIER:-quick} > $out 2>&1; echo "exit=$?" >> $out )
+  python3 - $ROOT/.run/mutants/$id.result.json >> $out <<'PY'
+import json,os,sys,collections
+if os.path.exists(sys.argv[1]):
+    r=json.load(open(sys.argv[1]))
     c=collections.Counter(v['inv'] for v in r.get('violations',[]))
-    print('ALL-FORMULAS', dict(c), 'panics', len(r.get('panics',[])), 'events', r.get('events'))
+    print('ALL-FORMULAS', dict(c), 'panics', len(r.get('panics',[])), 'events', r.get('events'), 'drift', r.get('drift_events'))
+else:
+    print('ALL-FORMULAS (no result: the check did not get that far)')
 PY
   echo "$id $(grep -c '^VIOLATION' $out) violation-lines; $(tail -2 $out | tr '\n' ' ')"
   git -C /repo worktree remove --force $WT
